@@ -747,6 +747,18 @@ class Run:
             self.model("MCWire.tla", "MCWire_dev_rcvkeeps.cfg", expect="ReceiverIndependent", env={"VERIF_VALUES": vals})
         n = self.behaviour_replay("MCWire_rcv_export5.cfg", sample=sample, mode=mode, vals=vals, note="(kept receivers)",
                                   keep=lambda st: sum(1 for x in st if x["op"] in ("decode", "refused")) >= 2)
+        # focus configurations: two messages of ONE type (the extension owner's two application ids; two bodies of the frame), the operations
+        # encode / partial segment / decode / refused decode, EVERY history of 6 operations (ok -> refused after the discriminator -> ok on
+        # one receiver needs exactly 6)
+        lines = open(vals).read().splitlines()
+        owner = json.loads(lines[-1])["t"]
+        for tag, sel in (("A", [l for l in lines if json.loads(l)["t"] == owner]), ("B", [l for l in lines if json.loads(l)["t"] != owner][:2])):
+            if len(sel) < 2:
+                continue
+            fv = os.path.join(self.scratch, "wmrcv-focus%s-%d.ndjson" % (tag, self.seed))
+            open(fv, "w").write("\n".join(sel) + "\n")
+            n += self.behaviour_replay("MCWire_rcv_focus6.cfg", mode=mode, vals=fv, note="(kept receivers, focus %s: 2 messages of %s, depth 6)" % (tag, json.loads(sel[0])["t"]),
+                                       keep=lambda st: sum(1 for x in st if x["op"] in ("decode", "refused")) >= 2)
         if sim:
             n += self.behaviour_replay("MCWire_rcv_sim7.cfg", mode=mode, vals=vals, note="(kept receivers, random walks of 7 operations)",
                                        extra=["-simulate", "num=%d" % sim, "-depth", "8", "-seed", str(self.seed)], workers=4,
